@@ -421,7 +421,7 @@ def as_v(x) -> V:
     if isinstance(x, float):
         if math.isnan(x) or math.isinf(x):
             raise ValueError(f"non-finite literal {x}")
-        return V(Poly.const(Fraction(x)))
+        return V(Poly.const(snap(x)))
     # numpy scalars
     try:
         import numpy as _np
@@ -435,6 +435,22 @@ def as_v(x) -> V:
     except ImportError:
         pass
     raise TypeError(f"cannot make a symbolic scalar from {type(x)}")
+
+
+SNAP_REL = 1e-13
+
+
+def snap(x: float) -> Fraction:
+    """Exact value of a float literal, except that literals within 1e-13 (relative) of a rational with
+    denominator <= 10^6 are read as that rational (0.1, 1/3, 5.999999999999999 as 6 ...): the real-number
+    idealisation of a constant the code computed or wrote in floating point."""
+    fr = Fraction(x)
+    if fr.denominator == 1:
+        return fr
+    s = fr.limit_denominator(10**6)
+    if abs(float(s) - x) <= SNAP_REL * max(1.0, abs(x)):
+        return s
+    return fr
 
 
 def poly_node(p: Poly) -> int:
@@ -544,6 +560,8 @@ def inv(x: V) -> V:
     st = x.p.single_term()
     if st is not None:
         m, c = st
+        if any(SYMS[s_].get("atom") == "inf" for s_, _ in m):
+            return ZERO  # finite / (+inf) == 0   (only arises from factorials of negative integers)
         p = Poly({tuple((s, -e) for s, e in m): 1 / c})
         if POWER_RULES and _needs_power_reduce(next(iter(p.t))):
             p = power_reduce(p)
@@ -649,6 +667,15 @@ def atom_pow(base: V, expo: V) -> V:
         )
 
     return _atom("pow", (base.p.key(), expo.p.key()), "pow", build)
+
+
+def pos_inf() -> V:
+    return _atom("inf", (), "inf", lambda: _mk_atom("inf", "+inf", (), positive=True))
+
+
+def is_inf(v: V) -> bool:
+    st = v.p.single_term()
+    return st is not None and any(SYMS[s_].get("atom") == "inf" for s_, _ in st[0])
 
 
 def atom_fun(name: str, *args: V, **flags) -> V:
@@ -767,6 +794,14 @@ def ite(c: B, a: V, b: V) -> V:
     def build():
         at = _mk_atom("ite", f"ite{len(SYMS)}", (c, a, b))
         sid = _sid(at)
+        # sign fix-up idiom  where(sign(x) == 0, +-1, sign(x))  takes values in {-1, +1}: its square is 1
+        try:
+            if a.is_const() and abs(a.const_value()) == 1 and c.op == "eq" and c.args[0].p.key() == b.p.key():
+                st = b.p.single_term()
+                if st is not None and st[1] == 1 and len(st[0]) == 1 and st[0][0][1] == 1 and SYMS[st[0][0][0]].get("atom") == "sign":
+                    POWER_RULES[sid] = (2, Poly.const(1))
+        except Exception:
+            pass
         if known_nonneg(a.p) and known_nonneg(b.p):
             NONNEG.add(sid)
         if known_positive(a.p) and known_positive(b.p):
